@@ -49,14 +49,51 @@ Qed.
 Print Assumptions C03_no_overlap_within_files.
 
 (* (2) A failed operation (any error class) leaves the whole database state as it was: the
-   index, and therefore everything that can be read, is unchanged. *)
+   index, and therefore everything that can be read, is unchanged.  ([nested_free] only
+   excludes a DeleteC that carries writer operations inside its resolvers — for that one
+   see C03_delete_during_commits_fail_atomic.) *)
 Theorem C03_fail_atomic : forall st o st' r,
-  step st o = (st', r) -> r <> ROk ->
+  nested_free o -> step st o = (st', r) -> r <> ROk ->
   st' = st /\ d_ptrs st' = d_ptrs st /\ readable st' = readable st.
 Proof.
-  intros st o st' r Hs Hr. pose proof (step_fail_unchanged st o st' r Hs Hr) as ->. auto.
+  intros st o st' r Hn Hs Hr. pose proof (step_fail_unchanged st o st' r Hn Hs Hr) as ->. auto.
 Qed.
 Print Assumptions C03_fail_atomic.
+
+(* A delete during which other writers commit and which then fails leaves the database
+   exactly as the last of those writer operations left it. *)
+Theorem C03_delete_during_commits_fail_atomic : forall st a b sops eops,
+  let '(st', r, nested) := delete_c st a b sops eops in
+  r <> ROk -> st' = last (map fst nested) st.
+Proof. exact delete_c_fail. Qed.
+Print Assumptions C03_delete_during_commits_fail_atomic.
+
+(* (1') Commits that land while DB.Delete runs its offset resolvers (the index is unlocked
+   then): the invariant holds after every nested writer operation and after the delete,
+   whatever positions the commits shifted — the re-resolution ("repêchage") of BOTH the
+   start and the end position finds the captured domains again.  [legal] asks that the
+   nested operations are legal and leave the two captured domains untouched. *)
+Theorem C03_delete_during_commits_inv : forall st a b sops eops,
+  Inv st -> legal st (DeleteC a b sops eops) ->
+  Inv (fst (step st (DeleteC a b sops eops))) /\
+  Forall (fun sr => Inv (fst sr)) (step_nested st (DeleteC a b sops eops)).
+Proof.
+  intros st a b sops eops HI Hl. split; [apply step_inv; assumption|apply step_nested_inv; assumption].
+Qed.
+Print Assumptions C03_delete_during_commits_inv.
+
+Theorem C03_repechage_finds : forall ps sd ed s e,
+  idx_ok ps -> In s ps -> In e ps ->
+  getp ps (repechage_start ps sd s) = Some s /\ getp ps (repechage_end ps ed e) = Some e.
+Proof.
+  intros. split; [apply repechage_start_finds|apply repechage_end_finds]; assumption.
+Qed.
+Print Assumptions C03_repechage_finds.
+
+(* With no writer acting inside the resolvers, DeleteC is Delete. *)
+Theorem C03_delete_c_nil : forall st a b, fst (delete_c st a b [] []) = step st (Delete a b).
+Proof. exact delete_c_nil. Qed.
+Print Assumptions C03_delete_c_nil.
 
 (* Opening a writer, writing uncommitted bytes and closing never change committed data. *)
 Theorem C03_uncommitted_ops_invisible : forall st o,
@@ -242,6 +279,23 @@ Theorem C03_upstream_inverted_end_refuted :
     idx_overlap [p] (cfg_domain s e) = false /\ cfg_validate s e = false.
 Proof. exact upstream_inverted_end_refuted. Qed.
 Print Assumptions C03_upstream_inverted_end_refuted.
+
+(* Non-vacuity for the concurrent form: three domains, a delete [15,55) spanning all of
+   them, and a commit of [1,5) by another writer while the END offset is being resolved
+   (both captured positions go stale).  The history is legal, both positions are
+   re-resolved, the result is ordered. *)
+Definition ex_ops_c : list op :=
+  [ Open 1 10 20 0; Write 1 [1;2;3;4;5;6;7;8;9;10]%N; Commit 1 20 0; Close 1;
+    Open 2 30 40 0; Write 2 [1;2;3;4;5;6;7;8;9;10]%N; Commit 2 40 0; Close 2;
+    Open 3 50 60 0; Write 3 [1;2;3;4;5;6;7;8;9;10]%N; Commit 3 60 0; Close 3;
+    DeleteC 15 55 [] [WOpen 4 1 5 0; WWrite 4 [1;2;3;4]%N; WCommit 4 5 0; WClose 4] ]%Z.
+Example C03_nonvacuous_concurrent :
+  legal_run (init 800 1000) ex_ops_c /\
+  map (fun p => (p_start p, p_end p, p_size p)) (d_ptrs (run (init 800 1000) ex_ops_c)) =
+    [(1, 5, 4%N); (10, 15, 5%N); (55, 60, 5%N)].
+Proof.
+  split; [apply legal_runb_sound; vm_compute; reflexivity|vm_compute; reflexivity].
+Qed.
 
 (* Non-vacuity: a legal history with three writers, a file switch, adjacency, a refused
    open inside data, a refused overlapping commit, a refused backwards commit and a
